@@ -18,7 +18,9 @@ RULE = ('Hypothesis draws 1-5 distinct chemicals in arbitrary order from 20 vola
         'Oracles: defining-equation residual recomputed from gamma/Psat/pcf/phi of the package, normalised and '
         'non-negative fractions, T->P->T and P->T->P round trips, T_bub<=T_dew and P_dew<=P_bub, single component = '
         'Psat/Tsat (own bisection on Psat), result(k*z)=result(z) for k in 1e-3..1e3, result(permuted tuple) = '
-        'permuted result. Non-trivial: >=2 chemicals with z>0. Distinct by (check, op, package, names, zero/trace '
+        'permuted result. Every case may start with a drawn prelude that creates and uses BubblePoint/DewPoint '
+        'objects for the same Chemical objects with another package and/or in another order (the solver objects '
+        'are cached process-wide; the runner empties the caches before each case). Non-trivial: >=2 chemicals with z>0. Distinct by (check, op, package, names, zero/trace '
         'pattern, k/permutation class).')
 ASSUMPTIONS = [
     'the defining equation is evaluated with the activity/fugacity/Poynting objects of the same property package '
@@ -33,7 +35,7 @@ ASSUMPTIONS = [
     '|dP|<=1e-6 P + 2e-2 Pa (Chemical.Tsat stops at 1e-2 Pa); scale/permutation |dT|<=1e-4 K, |dP|<=2e-6 P, '
     '|dy|<=2e-6 (two results each within the residual tolerance); normalisation 1e-12',
 ]
-REQUIRED_CELLS = {'quick': ['op=bubP', 'op=bubT', 'op=dewP', 'op=dewT', 'pkg=ideal', 'pkg=dortmund', 'pkg=dpcf',
+REQUIRED_CELLS = {'quick': ['prelude=none', 'prelude=pkg', 'prelude=perm', 'prelude=pkg+perm', 'op=bubP', 'op=bubT', 'op=dewP', 'op=dewT', 'pkg=ideal', 'pkg=dortmund', 'pkg=dpcf',
                             'z=zeros', 'z=trace', 'z=vertex', 'npos=1', 'npos>=2', 'order:judged',
                             'rt:T-P-T', 'rt:P-T-P'],
                   'thorough': []}
@@ -160,6 +162,7 @@ class System:
         self.Pb = min([P_HI] + [float(c.Psat(self.Thi)) for c in present])
         self._gap = None
         self._g3 = None
+        self._far = None
         lo_hull = min(p.Tmin for p in Psats) + 10.0
         hi_hull = max(p.Tmax for p in Psats) - 10.0
         self.xtrap = int(any(nonmonotone_outside_range(c, lo_hull, hi_hull) for c in present))
@@ -182,8 +185,21 @@ class System:
         if dew:
             r += f',gap={self.gap()}'
         else:
-            r += f',g3={self.g3()}'
+            r += f',g3={self.g3()},far={self.far()}'
         return r + f',xtrap={self.xtrap}'
+
+    def far(self):
+        """1 when, at the cold end of the T box, the bubble pressure of the package's liquid model exceeds the
+        ideal-solution bubble pressure by more than a factor 10: BubblePoint starts its unguarded secant from the
+        ideal-solution temperature, which is then far from the answer."""
+        if self._far is None:
+            self._far = 0
+            if self.pkg != 'ideal' and self.npos > 1:
+                zn = self.z / self.z.sum()
+                g = np.ones(self.n) * np.asarray(self.th.Gamma(self.chems)(zn, self.Tlo), float)
+                Ps = np.array([float(c.Psat(self.Tlo)) for c in self.chems])
+                self._far = int((zn * g * Ps).sum() > 10.0 * (zn * Ps).sum())
+        return self._far
 
     def g3(self):
         """1 when the liquid of composition z has an activity coefficient > 1e3 for a present chemical (evaluated at
@@ -221,11 +237,39 @@ def draw_z(ch, n, tag='z'):
     return [v / s for v in w], kind
 
 
-def draw_system(ch, nmin=1, nmax=5):
+PKGS = ('ideal', 'dortmund', 'dpcf')
+
+
+def run_prelude(names, pkg, z, ops):
+    """History inside the case: BubblePoint/DewPoint objects for the same Chemical objects are created (and used)
+    for ANOTHER package and/or ANOTHER order before the system under test is built.  The solver objects are cached
+    process-wide per (chemical tuple, Gamma, Phi, PCF); the runner empties those caches before every case, so
+    this prelude is the only history a case has.  Nothing computed here is judged."""
+    try:
+        pre = System(names, pkg, z, 'prelude')
+        T = 0.5 * (pre.Ta + pre.Tb) if pre.Ta < pre.Tb else 0.5 * (pre.Tlo + pre.Thi)
+        if 'bub' in ops: pre.BP(np.array(pre.z), T=T)
+        if 'dew' in ops: pre.DP(np.array(pre.z), T=T)
+    except Exception:
+        pass
+
+
+def draw_system(ch, nmin=1, nmax=5, ctx=None):
     pkg = ch.choice('pkg', ['ideal', 'dortmund', 'dortmund', 'dpcf'])
     n = ch.choice('n', [k for k in (2, 3, 1, 2, 3, 4, 5) if nmin <= k <= nmax])
     names = ch.subset('names', POOL, min_size=n, max_size=n)
     z, zkind = draw_z(ch, len(names))
+    prelude = ch.choice('prelude', ['none', 'pkg', 'perm', 'none', 'pkg+perm'])
+    if prelude != 'none':
+        ops = ch.choice('prelude.ops', ['bub', 'dew', 'bub+dew', 'create'])
+        if 'pkg' in prelude:
+            other = ch.choice('prelude.pkg', [k for k in PKGS if k != pkg])
+            run_prelude(names, other, z, ops)
+        if 'perm' in prelude and n > 1:
+            p = ch.permutation('prelude.perm', n)
+            run_prelude([names[i] for i in p], pkg, [z[i] for i in p], ops)
+    if ctx is not None:
+        ctx.cell('prelude=' + prelude)
     return System(names, pkg, z, zkind)
 
 
@@ -442,7 +486,7 @@ def liquid_stable(s, x, T):
 # properties
 # ---------------------------------------------------------------------------
 def prop_point(ch, ctx):
-    s = draw_system(ch)
+    s = draw_system(ch, ctx=ctx)
     op = ch.choice('op', OPS)
     spec = draw_T(ch, s, ctx) if op in ('bubP', 'dewP') else draw_P(ch, s, ctx)
     cells(ctx, s, op)
@@ -470,7 +514,7 @@ def _reject_bad_dew(ctx, s, op, T, P, w):
 
 
 def prop_roundtrip(ch, ctx):
-    s = draw_system(ch)
+    s = draw_system(ch, ctx=ctx)
     kind = ch.choice('kind', ['bub', 'dew'])
     first = ch.choice('first', ['T', 'P'])
     opP, opT = kind + 'P', kind + 'T'
@@ -513,7 +557,7 @@ def prop_roundtrip(ch, ctx):
 
 
 def prop_order(ch, ctx):
-    s = draw_system(ch)
+    s = draw_system(ch, ctx=ctx)
     fixed = ch.choice('fixed', ['T', 'P'])
     cells(ctx, s)
     region = s.region(True)
@@ -566,7 +610,7 @@ def compare(ctx, site, region, a, b, what):
 
 
 def prop_scale(ch, ctx):
-    s = draw_system(ch)
+    s = draw_system(ch, ctx=ctx)
     op = ch.choice('op', OPS)
     k = ch.choice('k.special', [2.0, 0.5, 1000.0, 0.001, None, None])
     if k is None:
@@ -584,7 +628,7 @@ def prop_scale(ch, ctx):
 
 
 def prop_perm(ch, ctx):
-    s = draw_system(ch, nmin=2)
+    s = draw_system(ch, nmin=2, ctx=ctx)
     op = ch.choice('op', OPS)
     p = ch.permutation('perm', s.n)
     spec = draw_T(ch, s, ctx) if op in ('bubP', 'dewP') else draw_P(ch, s, ctx)
